@@ -107,7 +107,7 @@ def inputs_for(tier, Ctx):
     ins = []
     for k in range(8):
         ins.append(("hs_%s%d" % (tier[0], k), os.path.join(shards, "hs_%s%d" % (tier[0], k), "src", "lib.rs"), "traits"))
-    fams = ["hg_gn1", "hg_gn2", "hg_gn3", "hg_gopt", "hg_gali", "hg_gmut", "hg_gord", "hg_gcase"] + (["hg_gn4"] if tier == "thorough" else [])
+    fams = ["hg_gn1", "hg_gn2", "hg_gn3", "hg_gopt", "hg_gali", "hg_gmut", "hg_gord", "hg_gcase", "hg_gfwd"] + (["hg_gn4"] if tier == "thorough" else [])
     for f in fams:
         ins.append((f, os.path.join(shards, f, "src", "lib.rs"), "groups"))
     ins.append(("life_defs", os.path.join(Ctx.ENGINE, "h_life", "src", "defs.rs"), "structure"))
